@@ -1,5 +1,6 @@
 import UnytModel.Driver
 import UnytModel.Ops.C18
+import UnytModel.Ops.C18Alias
 open Unyt
 
-def main : IO Unit := runDriver (baseHandlers ++ [opsC18])
+def main : IO Unit := runDriver (baseHandlers ++ [opsC18Alias, opsC18])
